@@ -632,7 +632,7 @@ def eng_pushstress(ctx):
     st["distinct"].add("pushstress")
     if m.group(2) == "1":
         why = ("C07-pending: with the push loop running and push subscriptions being created and deleted concurrently "
-               "(multi-thread runtime) no request completed for 5 s after %s had completed: requests wait for ever" % m.group(1))
+               "(multi-thread runtime) no request completed for 15 s after %s had completed: requests wait for ever" % m.group(1))
         return [("violation", "pushstress: " + why,
                  {"engine": "pushstress", "failing_input_found": True, "monitor": why, "signature": "monitor:C07-pending",
                   "replay_cmd": ".cache/target/release/harness pushstress %d 4" % ms, "output": (p.stdout or "")[-2000:],
@@ -820,9 +820,9 @@ def eng_grpcstress(ctx):
     def judge(v, out):
         first = next((l for l in out.splitlines() if l.startswith("round ")), "")
         if v["hung"]:
-            return "C07-pending: %d call(s) had no answer after 5 s [%s]" % (v["hung"], first[:200])
+            return "C07-pending: %d call(s) had no answer after 15 s [%s]" % (v["hung"], first[:200])
         if v["stream_not_ended"] or v["pull_not_released"]:
-            return ("C12-not-released: %d stream(s) still open and %d blocked Pull(s) still waiting 5 s after their "
+            return ("C12-not-released: %d stream(s) still open and %d blocked Pull(s) still waiting 15 s after their "
                     "subscription was deleted [%s]" % (v["stream_not_ended"], v["pull_not_released"], first[:200]))
         if v["stream_wrong_status"]:
             return "C12-stream-status: %d stream(s) ended with a status other than NOT_FOUND after the deletion [%s]" % (v["stream_wrong_status"], first[:200])
